@@ -119,6 +119,7 @@ PROP_BOUNDED = {
     'C07': 'harness/c07_bounded.py',
     'C05': 'harness/c05_bounded.py',
     'C06': 'harness/c06_bounded.py',
+    'C13': 'harness/c13_bounded.py',
 }
 
 
